@@ -35,7 +35,7 @@ def cases(tier, seed):
             o.update(feed_frac_reporting=1.0, feed_n_missing=0)
         if m == 5:
             o.update(feed_partial_above=0.5, feed_p_partial=0.9, mp=dict(beta=3))
-        out.append(dict(seed=seed, i=i, o=o))
+        out.append(dict(seed=seed, i=i, o=o, polls=(3 if i % 5 == 1 else 0)))
     return out
 
 
